@@ -494,7 +494,8 @@ impl<'a> Walker<'a> {
         // (when nobody is in check and no ep target is pending); the engine itself asks generators
         // about the side not to move (mate detection after a trial move), so the caches hold
         // entries of both colours under one key
-        if (on(F01) || on(F02)) && pos.ep.is_none() && !pos.in_check(pos.stm) {
+        // (members of the 3-men family come with both sides to move already)
+        if (on(F01) || on(F02)) && pos.ep.is_none() && item.seed_name != "three-men" && !pos.in_check(pos.stm) {
             let mut flipped = pos.clone();
             flipped.stm = pos.stm.other();
             if flipped.is_consistent() {
